@@ -107,6 +107,15 @@ func computedCycle(nss []*namespace.Namespace) bool {
 	return false
 }
 
+// effDepthGo is the effective depth the property states: a request depth <= 0 or above
+// the global limit means the global limit.
+func effDepthGo(r, g int) int {
+	if r <= 0 || g < r {
+		return g
+	}
+	return r
+}
+
 // concDepth is the global depth of the runs with the real concurrent checkgroup.
 const concDepth = 120
 
@@ -125,15 +134,19 @@ func streamEngine(t *testing.T, o *Out, p EngProfile) {
 		}
 	}
 	id := 0
+	extraCol := ""
 	emit := func(c *EngCase, tag string, withConc bool) int64 {
 		id++
 		o.Pre("engine", fmt.Sprintf("%s%d", tag, id), c.Payload())
 		res, calls := env.runCheck(c, true)
-		if calls > callBudget {
+		if calls > callBudget && !env.hung {
 			o.Count("dropped:cost")
 			return calls
 		}
-		impl := fmt.Sprintf("res=%s\tcalls=%d\topl=%d", res, calls, b2i(c.ViaOPL))
+		if env.hung {
+			withConc = false
+		}
+		impl := fmt.Sprintf("res=%s\tcalls=%d\topl=%d", res, calls, b2i(c.ViaOPL)) + extraCol
 		if withConc {
 			// the real concurrent checkgroup, several times: the decision must not depend on
 			// goroutine scheduling
@@ -180,7 +193,7 @@ func streamEngine(t *testing.T, o *Out, p EngProfile) {
 		o.Count("corpus")
 		emit(c, "corpus-"+parts[1]+"-", true)
 	}
-	for i := 0; i < n; i++ {
+	for i := 0; i < n && !env.hung; i++ {
 		c := genEngCase(r, p)
 		if err := env.prepare(c, o); err != nil {
 			if errors.Is(err, errLeak) {
@@ -215,7 +228,7 @@ func streamEngine(t *testing.T, o *Out, p EngProfile) {
 			if max > 14 {
 				max = 14
 			}
-			for k := 1; k <= max; k++ {
+			for k := 1; k <= max && !env.hung; k++ {
 				for _, pers := range []bool{false, true} {
 					fc := *c
 					fc.FaultAt, fc.FaultPersis = k, pers
@@ -227,17 +240,27 @@ func streamEngine(t *testing.T, o *Out, p EngProfile) {
 		case p.DepthGrid:
 			// several queries per stored state, over a grid of (request depth, global depth, width)
 			for _, g := range []int{1, 2, 3, 5, 8} {
+				if env.hung {
+					break
+				}
 				for _, rd := range []int{-1, 0, 1, g, g + 2} {
 					gc := *c
 					gc.GDepth, gc.RDepth = g, rd
 					gc.Width = []int{1, 2, 3, 100}[r.Intn(4)]
+					// the same request against a FRESH engine whose global limit is the effective
+					// depth (request depth 0): by the property the two must answer alike
+					fc := gc
+					fc.RDepth, fc.GDepth = 0, effDepthGo(rd, g)
+					fres := env.runFresh(&fc)
+					extraCol = "\tfres=" + fres
 					emit(&gc, "d", false)
+					extraCol = ""
 				}
 			}
 		default:
 			emit(c, "g", true)
 			// more queries on the same state
-			for j := 0; j < 3; j++ {
+			for j := 0; j < 3 && !env.hung; j++ {
 				qc := *c
 				qc.Query = genQuery(r, c.NSs, c.Tuples)
 				emit(&qc, "q", j == 0)
